@@ -240,10 +240,10 @@ pub fn spec() -> PropSpec {
             "RefChunkDec(strict) and RefMsg are trusted as transcriptions of the specification",
         ],
         checks: vec![
-            PropCheck::new("server-histories", |ctx| (c09::case_strategy(if ctx.tier == Tier::Thorough { 40 } else { 25 }), clock(), any::<u32>()).prop_map(|(h, clock, sample)| Case { history: History::Server(h), clock, sample }).boxed(), 2_500, 80_000, eval),
-            PropCheck::new("client-histories", |ctx| (c10::case_strategy(if ctx.tier == Tier::Thorough { 40 } else { 25 }), clock(), any::<u32>()).prop_map(|(h, clock, sample)| Case { history: History::Client(h), clock, sample }).boxed(), 2_500, 80_000, eval),
-            PropCheck::new("server-media", |_| (server_media_history(), clock(), any::<u32>()).prop_map(|(h, clock, sample)| Case { history: History::Server(h), clock, sample }).boxed(), 2_500, 80_000, eval),
-            PropCheck::new("client-media", |_| (client_media_history(), clock(), any::<u32>()).prop_map(|(h, clock, sample)| Case { history: History::Client(h), clock, sample }).boxed(), 2_500, 80_000, eval),
+            PropCheck::new("server-histories", |ctx| (c09::case_strategy(if ctx.tier == Tier::Thorough { 40 } else { 25 }), clock(), any::<u32>()).prop_map(|(h, clock, sample)| Case { history: History::Server(h), clock, sample }).boxed(), 20_000, 500_000, eval),
+            PropCheck::new("client-histories", |ctx| (c10::case_strategy(if ctx.tier == Tier::Thorough { 40 } else { 25 }), clock(), any::<u32>()).prop_map(|(h, clock, sample)| Case { history: History::Client(h), clock, sample }).boxed(), 20_000, 500_000, eval),
+            PropCheck::new("server-media", |_| (server_media_history(), clock(), any::<u32>()).prop_map(|(h, clock, sample)| Case { history: History::Server(h), clock, sample }).boxed(), 20_000, 500_000, eval),
+            PropCheck::new("client-media", |_| (client_media_history(), clock(), any::<u32>()).prop_map(|(h, clock, sample)| Case { history: History::Client(h), clock, sample }).boxed(), 20_000, 500_000, eval),
         ],
     }
 }
